@@ -374,15 +374,28 @@ func (c sessCfg) detectionTime(p Pkt) time.Duration {
 func wideEvents(c sessCfg) []ev {
 	es := []ev{{Name: "wait(2us)", Wait: 2 * time.Microsecond, Cls: "wait"}}
 	for _, iv := range wideIntervals() {
-		var p Pkt
 		for _, st := range []St{Down, Init} {
-			p = Pkt{Version: 1, State: st, DetectMult: iv.mult, My: discR1, Your: discLocal, DesiredTx: iv.tx, RequiredRx: iv.rx}
+			p := Pkt{Version: 1, State: st, DetectMult: iv.mult, My: discR1, Your: discLocal, DesiredTx: iv.tx, RequiredRx: iv.rx}
 			es = append(es, ev{Name: fmt.Sprintf("recv(%v,%s,mult=%d)", st, iv.name, iv.mult), P: p, Cls: "recv-" + st.String() + ":wide-interval"})
 		}
-		es = append(es, ev{Name: fmt.Sprintf("wait(DT[%s,mult=%d]-1us)", iv.name, iv.mult),
-			Wait: c.detectionTime(p) - time.Microsecond, Cls: "wait:wide-interval"})
 	}
 	return es
+}
+
+// wideMenu: all wide packets, a 2us wait and - once a packet was received - "wait until 1us before the
+// detection time of the packet received last ends" (computed in 64 bits). Waiting for days right after a
+// packet that asks for fast transmission would only produce millions of sent packets.
+func wideMenu(c sessCfg, es []ev) func([]ev) []ev {
+	return func(hist []ev) []ev {
+		for i := len(hist) - 1; i >= 0; i-- {
+			if hist[i].Wait == 0 {
+				dt := c.detectionTime(hist[i].P)
+				return append(append([]ev{}, es...), ev{Name: fmt.Sprintf("wait(DT[last packet]-1us=%v)", dt-time.Microsecond),
+					Wait: dt - time.Microsecond, Cls: "wait:wide-interval"})
+			}
+		}
+		return es
+	}
 }
 
 // discardEvents: packets that differ from an acceptable one in exactly one field.
@@ -1196,10 +1209,12 @@ func TestC16(t *testing.T) {
 		}
 		if wideOnly[c.Name] || c.Name == "learn" || mc.Thorough() {
 			wide := wideEvents(c)
-			st3 := mc.BFS(lb.space(wide, mc.Pick(3, 4), false))
+			sp := lb.space(wide, mc.Pick(3, 4), false)
+			sp.Events = wideMenu(c, wide)
+			st3 := mc.BFS(sp)
 			r.Report(st3)
 			r.Extra["b_wide_"+c.Name] = fmt.Sprintf("events=%d depth=%d states=%d transitions=%d complete=%v",
-				len(wide), st3.Depth, st3.States, st3.Transitions, st3.Complete)
+				len(wide)+1, st3.Depth, st3.States, st3.Transitions, st3.Complete)
 		}
 		bStates += lb.recovery()
 		lb.ties()
